@@ -14,6 +14,8 @@ int g_stray;                    /* the reference has seen a bare LF: the only pe
 int g_consumed;                 /* bytes received so far (domain restriction: < 2^31-1) */
 int g_hops;
 int g_failed;
+unsigned long g_stored;         /* bytes handed to the queue writer */
+#define B0 4000000000u          /* initial value of the size counter in this proof */
 
 static void expect(unsigned char c) { g_exp[g_explen++] = c; }
 
@@ -56,6 +58,8 @@ void qmail_put(struct qmail *qq, char *s, size_t len)
 {
   V_ASSERT(qq == &qqt && (unsigned)len == 1, "C05: supporting: message bytes are handed to the queue one at a time");
   V_ASSERT(!g_stray, "C05: after a bare LF nothing more is stored");
+  g_stored += (unsigned)len;
+  V_ASSERT(g_stored >= B0 || bytestooverflow == B0 - (unsigned)g_stored, "C07: every byte stored in the queue has passed the size counter (so a body one byte over databytes is failed, whatever its line structure)");
   V_ASSERT(g_explen > 0, "C05: only bytes of the decoded message are stored (nothing extra)");
   if (g_explen > 0) {
     V_ASSERT((unsigned char)*s == g_exp[0], "C05: the stored bytes are exactly the transmitted lines, CR LF -> LF, one leading dot removed, bare CR kept");
@@ -69,7 +73,7 @@ void qmail_fail(struct qmail *qq) { g_failed = 1; }
 void harness(void)
 {
   h4 = 0; h3 = 0; h2 = CR; h1 = LF;
-  g_explen = 0; g_term = 0; g_stray = 0; g_consumed = 0; g_failed = 0;
+  g_explen = 0; g_term = 0; g_stray = 0; g_consumed = 0; g_failed = 0; g_stored = 0; bytestooverflow = B0;
   blast(&g_hops);
   V_ASSERT(g_term, "C05: the message ends only at a line consisting of a single dot terminated by CR LF");
   V_ASSERT(g_explen == 0 && !g_stray, "C05: at the end of DATA every decoded byte has been stored");
